@@ -183,6 +183,22 @@ def _fold(node, env):
         raise _NoFold()
     if isinstance(node, ast.List):
         return [_fold(e, env) for e in node.elts]
+    if isinstance(node, ast.Call) and isinstance(node.func, ast.Name) and node.func.id == "len" and len(node.args) == 1 and not node.keywords and "len" not in env:
+        v = _fold(node.args[0], env)
+        if isinstance(v, (str, tuple, list, frozenset)):
+            return len(v)
+        raise _NoFold()
+    if isinstance(node, ast.Subscript) and isinstance(node.slice, ast.Slice):
+        base = _fold(node.value, env)
+        lo = _fold(node.slice.lower, env) if node.slice.lower is not None else None
+        hi = _fold(node.slice.upper, env) if node.slice.upper is not None else None
+        st = _fold(node.slice.step, env) if node.slice.step is not None else None
+        if isinstance(base, (str, tuple, list)) and all(x is None or (isinstance(x, int) and not isinstance(x, bool)) for x in (lo, hi, st)) and st != 0:
+            return base[lo:hi:st]
+        raise _NoFold()
+    if isinstance(node, ast.Call) and env.get("__opaque_calls__"):
+        # symbolic value of a call the folder does not know: ("<call>", callee text, folded positional arguments)
+        return ("<call>", ast.unparse(node.func), tuple(_fold(a, env) for a in node.args))
     if isinstance(node, ast.Subscript) and not isinstance(node.slice, ast.Slice):
         base = _fold(node.value, env)
         idx = _fold(node.slice, env)
